@@ -589,6 +589,16 @@ def reshape_conditionals(fn, r, stats, key):
                     changed[0] += 1
                     i = len(stmts)
                     continue
+            if isinstance(s, ast.If) and surplus(s) and s.orelse and not (len(s.orelse) == 1 and isinstance(s.orelse[0], ast.If)):
+                # `if not c: B else: A`  ==  `if c: A else: B`
+                from .au import negate
+                flipped = ast.copy_location(ast.If(test=ast.fix_missing_locations(ast.copy_location(negate(copy.deepcopy(s.test)), s.test)), body=s.orelse, orelse=s.body), s)
+                if wanted(flipped):
+                    swap([s], [flipped])
+                    out.extend(flatten_block([flipped]))
+                    changed[0] += 1
+                    i += 1
+                    continue
             if isinstance(s, ast.If) and surplus(s):
                 hit = [(e, used) for e, used in _as_ifexp(s, stmts[i + 1] if i + 1 < len(stmts) else None) if wanted(e)]
                 if hit:
